@@ -25,23 +25,67 @@ def view_store_methods(model: Model) -> List[FuncInfo]:
 def lemma_no_consume_on_failure(model: Model, run: Run, prop: str) -> None:
     """L1/L2: a read_* method advances `self._view` only after its validating helper
     returned, and by exactly the `consumed` value that helper returned."""
-    methods = [f for f in view_store_methods(model) if f.name not in ("skip_value", "get_remaining_data")]
+    rc = model.cls(READER)
+    # advance helpers: a method whose only effect on the view is `self._view = self._view[<its parameter>:]`
+    adv_helpers = {}
+    for name, m_ in rc.methods.items():
+        ps_ = m_.params()[1:]
+        for st_ in m_.node.body:
+            if isinstance(st_, ast.Assign) and any(isinstance(t, ast.Attribute) and t.attr == "_view" for t in st_.targets):
+                v_ = st_.value
+                if isinstance(v_, ast.Subscript) and isinstance(v_.slice, ast.Slice) and norm(v_.value) == "self._view" and v_.slice.upper is None and v_.slice.step is None \
+                        and isinstance(v_.slice.lower, ast.Name) and v_.slice.lower.id in ps_ and len(ps_) == 1 and name not in ("skip_value",) and not name.startswith("read"):
+                    adv_helpers[name] = m_
+
+    def advance_of(stmt: ast.stmt):
+        """the name holding the consumed count if stmt advances the view (directly or through an advance helper)"""
+        if isinstance(stmt, ast.Assign) and any(isinstance(t, ast.Attribute) and t.attr == "_view" for t in stmt.targets):
+            v_ = stmt.value
+            if isinstance(v_, ast.Subscript) and isinstance(v_.slice, ast.Slice) and norm(v_.value) == "self._view" and v_.slice.upper is None and v_.slice.step is None and isinstance(v_.slice.lower, ast.Name):
+                return v_.slice.lower.id
+            return ""
+        if isinstance(stmt, ast.Expr) and isinstance(stmt.value, ast.Call) and isinstance(stmt.value.func, ast.Attribute) and norm(stmt.value.func.value) == "self" \
+                and stmt.value.func.attr in adv_helpers and len(stmt.value.args) == 1 and isinstance(stmt.value.args[0], ast.Name):
+            return stmt.value.args[0].id
+        return None
+    methods = [f for f in rc.methods.values() if f.name not in ("skip_value", "get_remaining_data", "__init__") and f.name not in adv_helpers and
+               any(advance_of(s_) is not None for s_ in ast.walk(f.node) if isinstance(s_, ast.stmt))]
     n_pairs = 0
+    # L6: sibling agreement on reader state - every method that moves the view writes the same set of instance attributes
+    # (a cached header, a position counter ... that one sibling forgets to reset is stale state)
+    def writes(m_, seen=()):
+        out = {n_.attr for n_ in ast.walk(m_.node) if isinstance(n_, ast.Attribute) and isinstance(n_.ctx, (ast.Store, ast.Del)) and norm(n_.value) == "self"}
+        for c_ in ast.walk(m_.node):
+            if isinstance(c_, ast.Call) and isinstance(c_.func, ast.Attribute) and norm(c_.func.value) == "self" and c_.func.attr in rc.methods and c_.func.attr not in seen and c_.func.attr != m_.name:
+                out |= writes(rc.methods[c_.func.attr], seen + (m_.name,))
+        return out
+    movers = [f for f in rc.methods.values() if f.name != "__init__" and "_view" in writes(f)]
+    wsets = {f.name: frozenset(writes(f)) for f in movers}
+    if wsets:
+        from collections import Counter
+        common = Counter(wsets.values()).most_common(1)[0][0]
+        for name, ws in sorted(wsets.items()):
+            ok = ws == common
+            run.ob("L6-reader-state-siblings", ok, {"method": name, "writes": sorted(ws)})
+            if not ok:
+                fi_ = rc.methods[name]
+                run.fail(Finding("L6-reader-state-siblings", fi_.qualname, f"writes={sorted(ws)} vs {sorted(common)}",
+                                 f"ASN1Reader.{name} moves the view but writes {sorted(ws)} while its siblings write {sorted(common)}: reader state it does not reset goes stale", model.loc(fi_.module, fi_.node)))
     for fi in methods:
         body = [s for s in fi.node.body if not (isinstance(s, ast.Expr) and isinstance(s.value, ast.Constant))]
-        stores = [(i, s) for i, s in enumerate(body) if isinstance(s, ast.Assign) and any(isinstance(t, ast.Attribute) and t.attr == "_view" for t in s.targets)]
-        nested_stores = [n for n in ast.walk(fi.node) if isinstance(n, ast.Attribute) and n.attr == "_view" and isinstance(n.ctx, ast.Store)]
+        stores = [(i, s) for i, s in enumerate(body) if advance_of(s) is not None]
+        nested_stores = [n for n in ast.walk(fi.node) if isinstance(n, ast.stmt) and advance_of(n) is not None]
         ok = len(stores) == 1 and len(nested_stores) == 1
         why = "exactly one top-level advance of the view expected"
         helper_q = None
         helper_qs: List[Optional[str]] = []
         if ok:
             i, st = stores[0]
-            v = st.value
-            ok = isinstance(v, ast.Subscript) and isinstance(v.slice, ast.Slice) and norm(v.value) == "self._view" and v.slice.upper is None and v.slice.step is None and isinstance(v.slice.lower, ast.Name)
+            cname0 = advance_of(st)
+            ok = bool(cname0)
             why = "the advance is not `self._view[consumed:]`"
             if ok:
-                cname = v.slice.lower.id
+                cname = cname0
                 # binding of `consumed`: tuple-unpack of a helper call on self._view, earlier in the same block
                 bind = [(j, s) for j, s in enumerate(body[:i]) if isinstance(s, ast.Assign) and isinstance(s.targets[0], ast.Tuple)
                         and len(s.targets[0].elts) == 2 and isinstance(s.targets[0].elts[1], ast.Name) and s.targets[0].elts[1].id == cname]
@@ -211,4 +255,4 @@ def lemma_no_silent_clamp(model: Model, run: Run, mr) -> None:
                 if not ok:
                     run.fail(Finding("T1-no-silent-clamp", fq, norm(n), f"`{norm(n)}` is taken without a dominating check that `{x}` has at least `{norm(up)}` octets: "
                                      "a short input is silently truncated instead of raising NotEnougData", model.loc(fi.module, n)))
-    run.floor("upper-bounded input slices", n_sites, 4)
+    run.floor("upper-bounded input slices", n_sites, 2)
